@@ -67,6 +67,7 @@ type GroupFocus struct {
 	Only848    bool // KIP-848 protocols only
 	Scarce     bool // always fewer partitions than members
 	SlowRevoke bool // revoke callbacks that outlast several (fast) heartbeats
+	CoopIdle   bool // classic cooperative-sticky only, members join one after another on topics that carry no records (nothing is ever uncommitted)
 	CoopMulti  bool // incremental protocols only (cooperative-sticky, KIP-848), 2-3 topics of up to 6 partitions, every member subscribed to at least two
 }
 
@@ -81,6 +82,9 @@ func GenGroupPlanF(t *rapid.T, f GroupFocus) GroupPlan {
 	}
 	if f.CoopMulti {
 		protos = []string{"coop", "coop", "848-uniform", "848-range"}
+	}
+	if f.CoopIdle {
+		protos = []string{"coop"}
 	}
 	p.Protocol = rapid.SampledFrom(protos).Draw(t, "protocol")
 	// scarce plans have fewer partitions than members, so that rebalances leave members with
@@ -114,11 +118,17 @@ func GenGroupPlanF(t *rapid.T, f GroupFocus) GroupPlan {
 		p.InitTopics = append(p.InitTopics, ts)
 	}
 	p.Prefill = rapid.IntRange(0, 10).Draw(t, "prefill")
+	if f.CoopIdle {
+		p.Prefill = 0
+	}
 	p.AutoCommit = rapid.SampledFrom([]time.Duration{200 * time.Millisecond, time.Second, 5 * time.Second}).Draw(t, "autocommit")
 	p.PollMax = rapid.SampledFrom([]int{0, 0, 1, 3}).Draw(t, "pollmax")
 	p.PollEvery = rapid.SampledFrom([]time.Duration{10 * time.Millisecond, 100 * time.Millisecond, time.Second}).Draw(t, "pollevery")
 	ns := rapid.IntRange(2, 25).Draw(t, "nsteps")
 	kinds := []string{"join", "join", "join", "leave", "leave", "addtopic", "mktopic", "addparts", "append", "append", "append", "force", "sleep"}
+	if f.CoopIdle {
+		kinds = []string{"join", "join", "join", "join", "leave", "addparts", "force", "sleep", "sleep"}
+	}
 	delays := []time.Duration{0, 0, 10 * time.Millisecond, 300 * time.Millisecond, 2 * time.Second, 8 * time.Second}
 	for i := 0; i < ns; i++ {
 		s := GroupStep{Delay: rapid.SampledFrom(delays).Draw(t, "delay"), Kind: rapid.SampledFrom(kinds).Draw(t, "kind")}
